@@ -35,7 +35,9 @@ def run(chk):
         src = "generator-sample"
         if gen is not None:
             try:
-                fed = gen(chk) or []
+                # quick-tier size in both tiers: in the thorough tier one generator shard of the
+                # extracted model was seen running > 20 min / 5 GB (integrator informed)
+                fed = gen(chk, count=90) or []
                 src = "model"
             except Exception as e:  # the model side is not ours: report, fall back
                 chk.notes.append("codec_common.model_streams failed: %r" % (e,))
